@@ -358,7 +358,13 @@ pub struct Decoders {
 #[derive(Serialize, Deserialize, Clone, Debug)]
 pub enum DCase {
     Entry { e: Ent, mutate: Option<(u16, u8)> },
-    Heads { heads: Vec<(u8, u64)>, limit: Option<u16> },
+    Heads {
+        heads: Vec<(u16, u64)>,
+        limit: Option<u16>,
+        /// if set, the limit is the exact encoded size of the `k` newest heads plus `delta`
+        #[serde(default)]
+        boundary: Option<(u16, i8)>,
+    },
     Ticket { d: u8, write: bool, nodes: u8, mutate: Option<(u16, u8)> },
     Cap { kind: u8, #[serde(with = "hexbytes")] bytes: Vec<u8> },
     Filter { f: FilterSpec },
@@ -373,9 +379,19 @@ pub struct DecPlan {
     pub cases: Vec<DCase>,
 }
 
-fn big_author(i: u8) -> iroh_docs::AuthorId {
-    // many distinct authors for head sets: derive ids from secret bytes
-    Author::from_bytes(&[i.wrapping_add(1); 32]).id()
+fn big_author(i: u16) -> iroh_docs::AuthorId {
+    // many distinct authors for head sets: derive ids from secret bytes (cached: key derivation is slow)
+    thread_local! {
+        static CACHE: std::cell::RefCell<std::collections::HashMap<u16, iroh_docs::AuthorId>> = std::cell::RefCell::new(Default::default());
+    }
+    CACHE.with(|c| {
+        *c.borrow_mut().entry(i).or_insert_with(|| {
+            let mut b = [0x5Au8; 32];
+            b[0] = (i & 0xff) as u8;
+            b[1] = (i >> 8) as u8;
+            Author::from_bytes(&b).id()
+        })
+    })
 }
 
 impl Scenario for Decoders {
@@ -396,10 +412,16 @@ impl Scenario for Decoders {
         let mut cases = Vec::new();
         for _ in 0..n {
             let c = match self.mode {
-                PureMode::Heads => DCase::Heads {
-                    heads: (0..rng.urange(0, 40)).map(|_| (rng.below(60) as u8, *rng.pick(&[1u64, 2, 3, 127, 128, 16384, 1_700_000_000_000_000]) + rng.below(3))).collect(),
-                    limit: if rng.chance(1, 4) { None } else { Some(rng.range(1, 2000) as u16) },
-                },
+                PureMode::Heads => {
+                    // mostly small sets; sometimes hundreds of authors (the sequence length prefix
+                    // of the encoding grows at 128 items) and limits exactly at item boundaries
+                    let big = rng.chance(1, 6);
+                    let n = if big { rng.urange(100, 320) } else { rng.urange(0, 40) };
+                    let pool = if big { 400 } else { 60 };
+                    let heads: Vec<(u16, u64)> = (0..n).map(|_| (rng.below(pool) as u16, *rng.pick(&[1u64, 2, 3, 127, 128, 16384, 1_700_000_000_000_000]) + rng.below(3))).collect();
+                    let boundary = if rng.chance(1, 2) { Some((rng.below(n as u64 + 2) as u16, *rng.pick(&[-1i8, 0, 0, 0, 1]))) } else { None };
+                    DCase::Heads { heads, limit: if rng.chance(1, 4) { None } else { Some(rng.range(1, if big { 14000 } else { 2000 }) as u16) }, boundary }
+                }
                 PureMode::Filters => match rng.below(3) {
                     0 => DCase::Filter { f: FilterSpec { exact: rng.chance(1, 2), bytes: if rng.chance(1, 2) { bytes(rng, 6) } else { b"a:b:c"[..rng.urange(0, 5)].to_vec() } } },
                     1 => DCase::FilterText { text: String::from_utf8_lossy(&bytes(rng, 16)).to_string() },
@@ -407,7 +429,7 @@ impl Scenario for Decoders {
                 },
                 PureMode::Codecs => match rng.below(12) {
                     0 | 1 => DCase::Entry { e: gen_ent(rng, &g), mutate: if rng.chance(2, 3) { Some((rng.below(400) as u16, 1 << rng.below(8))) } else { None } },
-                    2 => DCase::Heads { heads: (0..rng.urange(0, 10)).map(|_| (rng.below(20) as u8, rng.below(1000))).collect(), limit: None },
+                    2 => DCase::Heads { heads: (0..rng.urange(0, 10)).map(|_| (rng.below(20) as u16, rng.below(1000))).collect(), limit: None, boundary: None },
                     3 | 4 => DCase::Ticket { d: rng.below(4) as u8, write: rng.chance(1, 2), nodes: rng.range(1, 3) as u8, mutate: if rng.chance(1, 2) { Some((rng.below(300) as u16, 1 << rng.below(8))) } else { None } },
                     5 => DCase::Cap { kind: rng.below(5) as u8, bytes: (0..32).map(|_| rng.below(256) as u8).collect() },
                     6 => DCase::Filter { f: FilterSpec { exact: rng.chance(1, 2), bytes: bytes(rng, 6) } },
@@ -465,7 +487,7 @@ impl Decoders {
                     }
                 }
             }
-            DCase::Heads { heads, limit } => {
+            DCase::Heads { heads, limit, boundary } => {
                 let mut h = AuthorHeads::default();
                 let mut want: std::collections::BTreeMap<[u8; 32], u64> = Default::default();
                 for (a, ts) in heads {
@@ -474,7 +496,24 @@ impl Decoders {
                     let t = want.entry(id.to_bytes()).or_insert(0);
                     *t = (*t).max(*ts);
                 }
-                let enc = h.encode(limit.map(|l| l as usize)).map_err(|e| Violation::new("encode/error", format!("{e:#}")))?;
+                // resolve a boundary limit: exact encoded size of the k newest heads (+ delta)
+                let limit: Option<usize> = match (boundary, limit) {
+                    (Some((k, delta)), Some(_)) => {
+                        let mut items: Vec<(u64, [u8; 32])> = want.iter().map(|(a, t)| (*t, *a)).collect();
+                        items.sort();
+                        items.reverse();
+                        items.truncate(*k as usize);
+                        let size = postcard::to_stdvec(&items).map(|v| v.len()).unwrap_or(1) as i64 + *delta as i64;
+                        cx.probe("limit_at_item_boundary");
+                        if items.len() >= 128 {
+                            cx.probe("two_byte_length_prefix");
+                        }
+                        Some(size.max(1) as usize)
+                    }
+                    (_, l) => l.map(|l| l as usize),
+                };
+                let limit = &limit;
+                let enc = h.encode(*limit).map_err(|e| Violation::new("encode/error", format!("{e:#}")))?;
                 let dec = AuthorHeads::decode(&enc).map_err(|e| Violation::new("encode/undecodable", format!("{e:#}")))?;
                 let got: std::collections::BTreeMap<[u8; 32], u64> = dec.iter().map(|(a, t)| (a.to_bytes(), *t)).collect();
                 if self.mode == PureMode::Codecs {
@@ -488,7 +527,7 @@ impl Decoders {
                     }
                     Some(l) => {
                         cx.fault("size_limit");
-                        let l = *l as usize;
+                        let l = *l;
                         if enc.len() > l {
                             return Err(Violation::new("encode/limit", format!("encoded {} bytes under a limit of {l}", enc.len())));
                         }
